@@ -177,6 +177,8 @@ class Runner:
                                               text="[spot check of a cell the symbolic run could not finish] " + h["text"], sig=h["sig"], spec=res["spec"]))
         for v, c in zip(res["violations"], rep["confirms"]):
             v["reproduced"] = c["reproduced"]
+            if c.get("env"):
+                v["env"] = c["env"]
             v["text"] = c["text"]
             v["sig"] = c["sig"]
             v["spec"] = res["spec"]
